@@ -441,7 +441,10 @@ func genPlanOpt(seed uint64, prop string, cold bool) *Plan {
 	hot := prop == "C14" && !cold && r.chance(0.15)
 	sweep := !hot && !cold && r.chance(0.06)
 	repeat := !hot && !sweep && !cold && r.chance(0.05)
-	if hot {
+	neigh := !hot && !sweep && !repeat && !cold && r.chance(map[bool]float64{true: 0.03, false: 0.08}[prop == "C14"])
+	if neigh {
+		nTasks, nParse = genNeighbours(r, p)
+	} else if hot {
 		nTasks, nParse = genHot(r, p)
 	} else if sweep {
 		nTasks, nParse = genSweep(r, p)
@@ -671,6 +674,9 @@ func genPlanOpt(seed uint64, prop string, cold bool) *Plan {
 	if hot {
 		p.Policy = []string{"random", "pct", "random", "rr", "stall"}[r.intn(5)]
 	}
+	if neigh {
+		p.Policy = []string{"pct", "rr", "pct", "rr", "stall"}[r.intn(5)] // preemption inside the calls
+	}
 	if nTasks == 1 {
 		p.Policy = "seq"
 	}
@@ -795,7 +801,7 @@ func genPlanOpt(seed uint64, prop string, cold bool) *Plan {
 		}
 		p.PoolDec = append(p.PoolDec, d)
 	}
-	p.Slab = r.chance(0.35)
+	p.Slab = r.chance(0.35) || neigh
 	p.AliasArgs = r.chance(0.25)
 	if prop == "C14" {
 		for k := r.intn(4); k > 0; k-- {
@@ -826,6 +832,9 @@ func genPlanOpt(seed uint64, prop string, cold bool) *Plan {
 	p.LoudObs = cold && prop != "C14" && r.chance(0.6)
 	if hot {
 		p.Policy = "hot-" + p.Policy
+	}
+	if neigh {
+		p.Policy = "neigh-" + p.Policy
 	}
 	if sweep {
 		p.Policy = "sweep-" + p.Policy
@@ -963,6 +972,59 @@ func genHot(r *rng, p *Plan) (nTasks, nParse int) {
 			ops = append(ops, ins...)
 			p.Tasks[t] = append(ops, p.Tasks[t][at:]...)
 		}
+	}
+	return nTasks, nParse
+}
+
+// genNeighbours: several tasks, each changing and observing its OWN one or two
+// objects all the time, the objects being adjacent elements of one array (the
+// slab): a Set that reads or writes more than its own object (a wide
+// read-modify-write, a whole-word store) undoes its neighbour's update.
+func genNeighbours(r *rng, p *Plan) (nTasks, nParse int) {
+	nTasks = 2 + r.intn(5)
+	sameVer := 0
+	if r.chance(0.6) {
+		sameVer = pickVer(r, 0.25)
+	}
+	perTask := []int{8, 16, 32, 64}[r.intn(4)]
+	for t := 0; t < nTasks; t++ {
+		for k := 1 + r.intn(2); k > 0; k-- {
+			ver := sameVer
+			if ver == 0 {
+				ver = pickVer(r, 0.25)
+			}
+			p.Cells = append(p.Cells, CellSpec{Ver: ver, Mode: mPriv, Owner: t, Init: genValid(r, ver)})
+		}
+	}
+	for t := 0; t < nTasks; t++ {
+		var own []int
+		for i, c := range p.Cells {
+			if c.Owner == t {
+				own = append(own, i)
+			}
+		}
+		var ops []Op
+		for len(ops) < perTask {
+			c := own[r.intn(len(own))]
+			ver := p.Cells[c].Ver
+			sp := specs[ver]
+			switch x := r.intn(10); {
+			case x < 7:
+				m := sp.Metrics[r.intn(len(sp.Metrics))]
+				if r.chance(0.6) {
+					m = sp.Metrics[r.intn(4)] // the first bytes of the object: what a neighbour's overrun hits
+				}
+				ops = append(ops, Op{K: kSet, C: c, D: -1, S: m.Abv, S2: r.pick(m.Values)})
+			case x < 8:
+				ops = append(ops, Op{K: kGet, C: c, D: -1, S: sp.Metrics[r.intn(len(sp.Metrics))].Abv})
+			case x < 9:
+				ops = append(ops, Op{K: r.pick([]string{kVector, kRTrip}), C: c, D: -1})
+			default:
+				nParse++
+				ops = append(ops, Op{K: kParse, V: ver, C: -1, D: c, S: genValid(r, ver)})
+			}
+		}
+		p.Tasks = append(p.Tasks, ops)
 	}
 	return nTasks, nParse
 }
